@@ -70,7 +70,7 @@ def fam_axes(fam):
 
 
 def glyph_names(fam):
-    names = [".notdef", "a", "b", "c", "d", "e"]
+    names = [".notdef", "a", "b", "c", "d", "e", "i"]
     if fam["content"] == "mark":
         names += ["m", "n"]
     if fam["content"] == "comp" and fam["kind"] == "ttf":
@@ -84,6 +84,20 @@ def _spec(fam):
         tag, _n, user, _d = AXES[ai]
         axes.append([tag, user[0], user[fam["dflt"][ai]], user[4]])
     return {"kind": fam["kind"], "shapes": "mixed", "axes": axes, "coef": fam.get("coef", 0)}
+
+
+def iup_probe(spec, gi, nloc):
+    """A contour with runs of points on two edges whose deltas are *nearly* interpolable from
+    their neighbours (off by a master-dependent -3..3 units): gvar's IUP optimisation may drop a
+    delta only when inference stays within its tolerance."""
+    (x0, y0, _), (x1, _y, _), (_x, y1, _), _p = tinyfont.glyph_points(dict(spec, shapes="box"), gi, nloc)[0]
+    w = lambda k: tinyfont._val(spec, nloc, 0, 950 + k) % 7 - 3  # noqa: E731
+    pts = [(x0, y0, "l")]
+    pts += [(x0 + (x1 - x0) * k // 5 + w(k), y0, "l") for k in range(1, 5)]
+    pts += [(x1, y0, "l"), (x1, y1, "l")]
+    pts += [(x1 - (x1 - x0) * k // 5, y1 + w(10 + k), "l") for k in range(1, 5)]
+    pts += [(x0, y1, "l")]
+    return [pts]
 
 
 def _fea(fam, spec, nloc, odd):
@@ -104,7 +118,7 @@ def _fea(fam, spec, nloc, odd):
         return (
             "languagesystem DFLT dflt;\nlanguagesystem latn dflt;\n"
             "markClass m %s @TOP;\nmarkClass n %s @BOT;\n"
-            "table GDEF { GlyphClassDef [a b c d e], , [m n], ; } GDEF;\n"
+            "table GDEF { GlyphClassDef [a b c d e i], , [m n], ; } GDEF;\n"
             "feature mark {\n  pos base a %s mark @TOP %s mark @BOT;\n  pos base b %s mark @TOP;\n} mark;\n"
             "feature mkmk { pos mark m %s mark @TOP; } mkmk;\n"
             % (A(100, 600, 0), A(120, -20, 1), A(250, 700, 2), A(240, 0, 3), A(260, 710, 4), A(100, 900, 5))
@@ -140,7 +154,7 @@ def static_master(fam, idx, sparse=False):
             glyphs[gn] = pen.glyph()
             metrics[gn] = (adv, 0)
             continue
-        contours = tinyfont.glyph_points(spec, gi, nloc)
+        contours = iup_probe(spec, gi, nloc) if gn == "i" else tinyfont.glyph_points(spec, gi, nloc)
         if kind == "ttf":
             pen = TTGlyphPen(None)
             tinyfont._draw(pen, contours)
@@ -148,7 +162,9 @@ def static_master(fam, idx, sparse=False):
         else:
             pen = T2CharStringPen(adv, None)
             tinyfont._draw(pen, contours)
-            glyphs[gn] = pen.getCharString()
+            # the probe glyph has collinear runs: keep every point (the specialiser would join
+            # them in some masters only and the masters would stop being point-compatible)
+            glyphs[gn] = pen.getCharString(optimize=(gn != "i"))
         xs = [p[0] for c in contours for p in c]
         metrics[gn] = (adv, min(xs) if xs else 0)
     if kind == "ttf":
